@@ -22,6 +22,8 @@ use vref::{der, gcc as rgcc, per as rper};
 #[derive(Clone, Debug, Serialize, PartialEq)]
 enum Field {
     U8,
+    /// n one-byte fields in a row (1 node): widens the record so that later fields sit at positions >= 32 / >= 64
+    Pad(usize),
     U16LE,
     U16BE,
     U32LE,
@@ -58,6 +60,9 @@ enum Field {
     SizedSkip(bool),
     /// size byte (=1) sizing b, b = a length byte sizing the byte block c (3 nodes): nested length prefixes
     NestedSize(usize),
+    /// flag byte that skips c iff 0, size byte announcing the size of c, c = byte block (3 nodes): when c is skipped the
+    /// announced size (1) is never used
+    SizeOfSkipped(bool),
     /// trailing optional U16LE, present or absent (last only)
     OptU16(bool),
     /// trailing byte block reading to the end (last only)
@@ -70,7 +75,7 @@ impl Field {
     fn nodes(&self) -> usize {
         match self {
             Field::SkipTwo(..) => 4,
-            Field::TrameU16U8 | Field::TrameOptMid(_) | Field::Nested | Field::SkipGap(_) | Field::SkipChain(..) | Field::SizedSkip(_) | Field::NestedSize(_) => 3,
+            Field::TrameU16U8 | Field::TrameOptMid(_) | Field::Nested | Field::SkipGap(_) | Field::SkipChain(..) | Field::SizedSkip(_) | Field::NestedSize(_) | Field::SizeOfSkipped(_) => 3,
             Field::SizedBytes(_) | Field::SizedArray(_) | Field::SizedMismatch(..) | Field::SkipPair(_) | Field::SkipBack(_) => 2,
             _ => 1,
         }
@@ -83,6 +88,8 @@ impl Field {
 fn field_menu() -> Vec<Field> {
     vec![
         Field::U8,
+        Field::Pad(31),
+        Field::Pad(64),
         Field::U16LE,
         Field::U16BE,
         Field::U32LE,
@@ -122,6 +129,8 @@ fn field_menu() -> Vec<Field> {
         Field::SizedSkip(false),
         Field::NestedSize(0),
         Field::NestedSize(3),
+        Field::SizeOfSkipped(true),
+        Field::SizeOfSkipped(false),
         Field::OptU16(true),
         Field::OptU16(false),
         Field::Rest(0),
@@ -163,6 +172,12 @@ pub fn structured_messages() -> Vec<(String, Component, Vec<u8>)> {
     for f in menu.iter().filter(|f| !f.last_only()) {
         shapes.push(vec![Field::U16LE, f.clone(), Field::Rest(2)]);
     }
+    // wide records: a skippable / size-dependent field behind 31 and behind 64 one-byte fields
+    for pad in [Field::Pad(31), Field::Pad(64)] {
+        for f in [Field::SkipPair(false), Field::SkipPair(true), Field::SkipGap(false), Field::SizedBytes(3), Field::SkipTwo(false, true), Field::SizeOfSkipped(false)] {
+            shapes.push(vec![pad.clone(), f, Field::Rest(2)]);
+        }
+    }
     shapes.into_iter().map(|sh| {
         let b = build(&sh, 1);
         (format!("{:?}", sh), b.msg, b.bytes)
@@ -198,6 +213,15 @@ fn build(shape: &[Field], variant: usize) -> Built {
                 empty.insert(name, Box::new(0u8));
                 w.u8(v);
                 leaves.push(Leaf::B(v));
+            }
+            Field::Pad(n) => {
+                for j in 0..*n {
+                    let v = nx8();
+                    msg.insert(format!("{}p{}", name, j), Box::new(v));
+                    empty.insert(format!("{}p{}", name, j), Box::new(0u8));
+                    w.u8(v);
+                    leaves.push(Leaf::B(v));
+                }
             }
             Field::U16LE => {
                 let v = nx16();
@@ -344,6 +368,28 @@ fn build(shape: &[Field], variant: usize) -> Built {
                 if *present {
                     w.u16be(v);
                     leaves.push(Leaf::H(v));
+                }
+            }
+            Field::SizeOfSkipped(present) => {
+                let flag: u8 = if *present { 1 } else { 0 };
+                let v: Vec<u8> = (0..3).map(|_| nx8()).collect();
+                let size: u8 = if *present { 3 } else { 1 };
+                let sz = format!("f{}b", i);
+                let target = format!("f{}c", i);
+                let filt = |t: String| move |x: &u8| if *x == 0 { MessageOption::SkipField(t.clone()) } else { MessageOption::None };
+                let sized = |t: String| move |x: &u8| MessageOption::Size(t.clone(), *x as usize);
+                msg.insert(name.clone(), Box::new(DynOption::new(flag, filt(target.clone()))));
+                msg.insert(sz.clone(), Box::new(DynOption::new(size, sized(target.clone()))));
+                msg.insert(target.clone(), Box::new(v.clone()));
+                empty.insert(name, Box::new(DynOption::new(0u8, filt(target.clone()))));
+                empty.insert(sz, Box::new(DynOption::new(0u8, sized(target.clone()))));
+                empty.insert(target, Box::new(Vec::<u8>::new()));
+                w.u8(flag).u8(size);
+                leaves.push(Leaf::B(flag));
+                leaves.push(Leaf::B(size));
+                if *present {
+                    w.bytes(&v);
+                    leaves.push(Leaf::S(v));
                 }
             }
             Field::SkipGap(present) => {
@@ -688,7 +734,7 @@ impl Prop for C18 {
             }
         }
         for min in [0usize, 1, 4] {
-            for extra in [0usize, 1, 2, 126, 127, 128, 129, 255, 256, 0x3FFF, 0x4000, 0x7FFE, 0x7FFF] {
+            for extra in [0usize, 1, 2, 126, 127, 128, 129, 255, 256, 257, 300, 511, 512, 513, 768, 1000, 1024, 1025, 0x3FFF, 0x4000, 0x7FFE, 0x7FFF] {
                 cs.push(Case::PerOctets { len: min + extra, min });
             }
         }
@@ -748,7 +794,7 @@ impl Prop for C18 {
         json!({"idx": idx, "case": self.cases[idx as usize]})
     }
     fn rule(&self) -> String {
-        "cases: [model] every message shape of <=4 nodes (<=5 thorough) over {u8, U16/U32 LE/BE, fixed byte block, Check, Trame, Trame with an absent / present optional element in front of data, nested Component, size-dependent byte block and array (DynOption Size), skippable field (DynOption SkipField: adjacent target, distant target, two skips pending at once, a skip naming an earlier field, a skipped field that itself carries a skip), a size-dependent field that itself carries a skip or a size for the next field, trailing Option present/absent, trailing rest-of-input block, trailing array} x 2 (5) value variants from {0,1,7F,80,FF,...}: length()==bytes written==reference bytes, read into an empty same-shape message (whose length() was asked first) reproduces every leaf and consumes exactly; a length field announcing another size than its block is written and measured by the block; [per] every length 0..0x7FFF, integers (all of u16, u32 boundaries; all 2^32 in thorough), integer16 (value,minimum) boundary pairs and whole rows, every nibble-valid 6-arc OID over {0,1,15,16,127,128,255}, octet strings at every length boundary, numeric strings; [asn1] INTEGER/ENUMERATED/OCTET STRING boundaries and the tagged shapes of MCS/CredSSP against an independent DER codec; [gcc] conference create request for block sizes across the PER length boundaries, every response of the reference encoder over versions x optional SC_CORE fields x 0..31 channels x 6 block orders x unknown block (none / 8-byte body / empty body between the blocks / empty body at the end) x node ids. Non-trivial: every case except single-leaf model shapes.".into()
+        "cases: [model] every message shape of <=4 nodes (<=5 thorough) over {u8, U16/U32 LE/BE, fixed byte block, Check, Trame, Trame with an absent / present optional element in front of data, nested Component, 31 / 64 one-byte fields in a row (later fields at positions >= 32 / >= 64 of the record), size-dependent byte block and array (DynOption Size), skippable field (DynOption SkipField: adjacent target, distant target, two skips pending at once, a skip naming an earlier field, a skipped field that itself carries a skip), a size-dependent field that itself carries a skip or a size for the next field, a size announced for a field that is skipped, trailing Option present/absent, trailing rest-of-input block, trailing array} x 2 (5) value variants from {0,1,7F,80,FF,...}: length()==bytes written==reference bytes, read into an empty same-shape message (whose length() was asked first) reproduces every leaf and consumes exactly; a length field announcing another size than its block is written and measured by the block; after the round trip a plain record whose fields bear the same names is read (nothing noted for the earlier message applies to it), and the same bytes are read once more into the now filled message, which must still report the length it writes; [per] every length 0..0x7FFF, integers (all of u16, u32 boundaries; all 2^32 in thorough), integer16 (value,minimum) boundary pairs and whole rows, every nibble-valid 6-arc OID over {0,1,15,16,127,128,255}, octet strings at every length boundary, numeric strings; [asn1] INTEGER/ENUMERATED/OCTET STRING boundaries and the tagged shapes of MCS/CredSSP against an independent DER codec; [gcc] conference create request for block sizes across the PER length boundaries, every response of the reference encoder over versions x optional SC_CORE fields x 0..31 channels x 6 block orders x unknown block (none / 8-byte body / empty body between the blocks / empty body at the end) x node ids. Non-trivial: every case except single-leaf model shapes.".into()
     }
     fn assumptions(&self) -> Vec<String> {
         vec![
@@ -799,6 +845,35 @@ impl Prop for C18 {
                 }
                 if empty.length() != bytes.len() as u64 {
                     return fail("model-length-after-read", format!("length() {} after reading {} bytes", empty.length(), bytes.len()));
+                }
+                // a plain record whose fields carry the names used above, read right afterwards on the same thread: nothing
+                // the reader noted for the message before (announced sizes, fields to skip) applies to it
+                {
+                    let names: Vec<String> = match empty.visit() {
+                        DataType::Component(c) => c.iter().map(|(n, _)| n.clone()).collect(),
+                        _ => vec![],
+                    };
+                    let mut probe = Component::new();
+                    let mut wire = vec![];
+                    for (k, n) in names.iter().enumerate() {
+                        probe.insert(n.clone(), Box::new(U16::BE(0)));
+                        wire.extend([(k as u8).wrapping_mul(29).wrapping_add(3), k as u8 ^ 0x5a]);
+                    }
+                    let mut cur = Cursor::new(wire.clone());
+                    match probe.read(&mut cur) {
+                        Ok(()) if cur.position() == wire.len() as u64 && rdp::model::data::to_vec(&probe) == wire => {}
+                        other => return fail("model-plain-record-read-after-this-message-differs", format!("a record of {} 16-bit fields named like the fields of the message, read after it: {:?}, consumed {} of {}", names.len(), other.err(), cur.position(), wire.len())),
+                    }
+                }
+                // the same bytes read once more into the same (no longer empty) message: whatever that yields, the message
+                // still reports the length it writes
+                {
+                    let mut cur = Cursor::new(bytes.clone());
+                    let _ = empty.read(&mut cur);
+                    let mut out = Cursor::new(Vec::new());
+                    if empty.write(&mut out).is_ok() && empty.length() != out.get_ref().len() as u64 {
+                        return fail("model-length-differs-from-bytes-written-after-a-second-read", format!("length() {} bytes {}", empty.length(), out.get_ref().len()));
+                    }
                 }
                 Outcome::pass("model", shape.iter().map(|f| f.nodes()).sum::<usize>() > 1)
             }
@@ -872,7 +947,8 @@ impl Prop for C18 {
                 Outcome::pass("per-oid", true)
             }
             Case::PerOctets { len, min } => {
-                let v: Vec<u8> = (0..len).map(|i| (i * 3 + 1) as u8).collect();
+                // not periodic in 256: the block number is mixed in
+                let v: Vec<u8> = (0..len).map(|i| (i * 3 + 1 + (i >> 8) * 7) as u8).collect();
                 let mut c = Cursor::new(Vec::new());
                 if let Err(e) = lper::write_octet_stream(&v, min, &mut c) {
                     return fail("per-octets-write-error", format!("{:?}", e));
@@ -889,6 +965,18 @@ impl Prop for C18 {
                 }
                 if cur.position() != lib.len() as u64 {
                     return fail("per-octets-consumed", format!("{} of {}", cur.position(), lib.len()));
+                }
+                // the reader is a comparator: one differing content octet, wherever it is, must be refused
+                let head = lib.len() - len;
+                for pos in [0usize, 1, 127, 128, 254, 255, 256, 257, 300, 511, 512, 513, 767, 768, 1023, 1024, len / 2, len.wrapping_sub(2), len.wrapping_sub(1)] {
+                    if pos >= len {
+                        continue;
+                    }
+                    let mut wire = lib.clone();
+                    wire[head + pos] ^= 0x40;
+                    if lper::read_octet_stream(&v, min, &mut Cursor::new(wire)).is_ok() {
+                        return fail("per-octets-mismatch-accepted", format!("len {} min {}: content octet {} differs from the expected string and the read succeeds", len, min, pos));
+                    }
                 }
                 Outcome::pass("per-octets", true)
             }
